@@ -59,6 +59,17 @@ theorem C12_bound_aligned (g : Spec) (d : DNA) (h : Valid g d) :
   obtain ⟨b, hb, he⟩ := annot_erase g d h
   exact ⟨b, hb, he, by unfold Aligned; rw [he]; exact hb⟩
 
+/-- Corollary (the alignment clause of the property): an aligned DNA with valid numbers has exactly
+the bindings — hence exactly the exported views (`toDict o` for every option triple, lookups) — of
+the DNA freshly rebuilt from its raw numbers with `from_numbers` + `use_spec`. -/
+theorem C12_views_of_rebuilt (g : Spec) (hc : g.noCustom = true) (b : BDNA)
+    (hv : Valid g b.erase) (ha : Aligned g b) :
+    ∃ d', g.fromNumbers (flat b.erase) = some d' ∧ g.annot d' = some b ∧
+      ∀ o, (g.annot d').map (toDict o) = some (toDict o b) := by
+  refine ⟨b.erase, C12_numbers g hc b.erase hv, ha, fun o => ?_⟩
+  unfold Aligned at ha
+  rw [ha]; rfl
+
 /-! ### Non-vacuity: a valid DNA with conditional and multi-choice parts satisfies `viewNorm` -/
 
 def exampleSpec12 : Spec :=
